@@ -234,4 +234,62 @@ theorem erase_head {l : List Nat} {m : Nat} (hh : l.head? = some m) : l.erase m 
   | nil => simp at hh
   | cons z zs => simp at hh; subst hh; simp
 
+theorem mem_of_mem_below' {l : List Nat} {a y : Nat} (h : y ∈ Below l a) : a ∈ l := by
+  apply Classical.byContradiction
+  intro hn
+  rw [below_of_not_mem hn] at h; simp at h
+
+theorem head_ne_of_mem_below {l : List Nat} {a m : Nat} (hn : l.Nodup) (h : m ∈ Below l a) : l.head? ≠ some m := by
+  cases l with
+  | nil => simp
+  | cons z zs =>
+    simp only [List.head?_cons, ne_eq, Option.some.injEq]
+    intro e; subst e
+    rw [below_cons] at h
+    split at h
+    · exact (List.nodup_cons.1 hn).1 h
+    · exact (List.nodup_cons.1 hn).1 (mem_of_mem_below h)
+
+/-- the element directly in front of `m` is unique -/
+theorem pred_unique {l : List Nat} {x a m : Nat} (hn : l.Nodup) (hx : (Below l x).head? = some m)
+    (ha : (Below l a).head? = some m) : x = a := by
+  apply Classical.byContradiction
+  intro hne
+  have hxm := head_mem_below hx
+  have ham := head_mem_below ha
+  rcases below_total (mem_of_mem_below' hxm) (mem_of_mem_below' ham) hne with h | h
+  · rcases mem_below_cases hn ha h with h' | h'
+    · subst h'; exact not_mem_below_self hn hxm
+    · exact below_antisymm hn h' hxm
+  · rcases mem_below_cases hn hx h with h' | h'
+    · subst h'; exact not_mem_below_self hn ham
+    · exact below_antisymm hn h' ham
+
+theorem head_erase_of_ne' {l : List Nat} {m : Nat} (hne : l.head? ≠ some m) : (l.erase m).head? = l.head? := by
+  cases l with
+  | nil => simp
+  | cons z zs =>
+    have : z ≠ m := by intro e; subst e; simp at hne
+    rw [List.erase_cons_tail (by simpa using this)]
+    rfl
+
+/-- a scan position survives the removal of an unrelated record -/
+theorem scan_erase_core {l : List Nat} {a m' m : Nat} (hn : l.Nodup) (ham : a ≠ m) (h1 : m' ∈ Below l a) (hmm : m' ≠ m)
+    (hh : (Below l a).head? ≠ some m) :
+    m' ∈ Below (l.erase m) a ∧ (Below (l.erase m) a).head? = (Below l a).head? ∧
+      ∀ x ∈ Below (l.erase m) a, m' ∈ Below (l.erase m) x → x ∈ Below l a ∧ m' ∈ Below l x := by
+  rw [below_erase hn ham]
+  refine ⟨(List.mem_erase_of_ne hmm).2 h1, head_erase_of_ne' hh, ?_⟩
+  intro x hx hm'
+  have hxb : x ∈ Below l a := List.mem_of_mem_erase hx
+  have hxm : x ≠ m := by
+    intro e; subst e
+    exact (List.Nodup.mem_erase_iff (nodup_below a hn)).1 hx |>.1 rfl
+  rw [below_erase hn hxm] at hm'
+  exact ⟨hxb, List.mem_of_mem_erase hm'⟩
+
+theorem below_erase_head {l : List Nat} {a m : Nat} (hn : l.Nodup) (ham : a ≠ m) (hh : (Below l a).head? = some m) :
+    Below (l.erase m) a = (Below l a).tail := by
+  rw [below_erase hn ham, erase_head hh]
+
 end ConcVerif.Rcu
